@@ -599,6 +599,10 @@ pub fn c06_judge(ctx: &Ctx, src: &str) -> Result<Option<(Spec, Naming)>, Failure
         Outcome::Ok(t) => t,
         _ => return Ok(None),
     };
+    if let Err(e) = emitted::read_types(&emitted_text) {
+        // the reader's limits are not the generator's fault: inconclusive (the rustc client below still judges shapes)
+        return Err(Failure::internal("unreadable-type-region", format!("the harness cannot read the emitted type definitions: {e}"), case));
+    }
     if let Err(e) = c06_text(&spec, &nm, &emitted_text) {
         return Err(Failure::new("type-definitions-differ", e, case));
     }
